@@ -13,6 +13,8 @@ namespace {
 // ------------------------------------------------------------------ ring
 template <typename R>
 void checkRing(Case& c, R& r, const std::deque<int>& m, unsigned CS, bool tracked) {
+  if (!c.regOk())
+    return;
   const R& cr = r;
   c.eq("size", r.size(), m.size());
   c.eq("empty", r.empty(), m.empty());
@@ -200,6 +202,8 @@ void ringCS(Case& c, unsigned cs, bool mid, bool cr, unsigned nops) {
 // that element; a full bag refuses an insertion (null) and stays unchanged.
 template <typename B>
 void checkBagState(Case& c, B& b, const std::multiset<int>& m, unsigned CS, bool tracked) {
+  if (!c.regOk())
+    return;
   const B& cb = b;
   c.eq("size", b.size(), m.size());
   c.eq("empty", b.empty(), m.empty());
@@ -347,7 +351,8 @@ void runBag(Case& c, const char* name) {
   bool tracked  = c.rng.below(3) != 0;
   unsigned nops = c.pickOps();
   std::string cfg = "cs" + std::to_string(cs) + (tracked ? "|tracked" : "|pod");
-  c.begin(name, cfg, J().kv("chunk", cs).kv("elem", tracked ? "tracked" : "pod").kv("nops", nops));
+  if (!c.begin(name, cfg, J().kv("chunk", cs).kv("elem", tracked ? "tracked" : "pod").kv("nops", nops)))
+    return;
   if (tracked)
     bagCS<Tracked, Conc>(c, cs, nops);
   else
@@ -364,9 +369,11 @@ void run_FixedSizeRing(Case& c) {
   unsigned nops = c.pickOps();
   std::string cfg =
       "cs" + std::to_string(cs) + (tracked ? "|tracked" : "|pod") + (mid ? "|mid" : "|ends") + (cr ? "|constrev" : "");
-  c.begin("FixedSizeRing", cfg,
+  if (!c.begin("FixedSizeRing", cfg,
           J().kv("chunk", cs).kv("elem", tracked ? "tracked" : "pod").kv("emplace_in_middle", mid)
-              .kv("const_reverse_traversal_at_end", cr).kv("nops", nops));
+              .kv("const_reverse_traversal_at_end", cr).kv("nops", nops),
+               cr ? "const-reverse" : ""))
+    return;
   if (tracked)
     ringCS<Tracked>(c, cs, mid, cr, nops);
   else
